@@ -138,7 +138,7 @@ func petExec(sh *shape, d *petData, sels []*sel) map[string]interface{} {
 }
 
 func sfld(name string, sub ...*sel) *sel { return &sel{kind: selField, name: name, sub: sub} }
-func on(cond string, sub ...*sel) *sel  { return &sel{kind: selInline, cond: cond, sub: sub} }
+func on(cond string, sub ...*sel) *sel   { return &sel{kind: selInline, cond: cond, sub: sub} }
 
 func c01AbsShape(k int) (*shape, []*sel) {
 	sh := &shape{frags: map[string]*sel{}}
